@@ -247,6 +247,14 @@ def run(tier, only=None):
              runner.Cond(HF, "h_neighbors", 3 * Tm, name="h_neighbors[2x2,opt4-5]", env={"VERIF_OPTLO": "4", "VERIF_OPTHI": "5"}, key="neighbors"),
              runner.Cond(HF, "h_neighbors", 3 * Tm, name="h_neighbors[1x3]", env={"VERIF_BH": "1", "VERIF_BW": "3"}, key="neighbors"),
              runner.Cond(HF, "h_neighbors", 3 * Tm, name="h_neighbors[3x1]", env={"VERIF_BH": "3", "VERIF_BW": "1"}, key="neighbors"),
+             # boards on which a cell is adjacent to its own point reflection (exactly one even dimension)
+             runner.Cond(HF, "h_neighbors", 3 * Tm, name="h_neighbors[1x2]", env={"VERIF_BH": "1", "VERIF_BW": "2"}, key="neighbors"),
+             runner.Cond(HF, "h_neighbors", 3 * Tm, name="h_neighbors[2x1]", env={"VERIF_BH": "2", "VERIF_BW": "1"}, key="neighbors"),
+             # choice values that are equal to, but not the same objects as, the default (run-time ints above the small-int cache, built strings)
+             runner.Cond(HF, "h_neighbors", 3 * Tm, name="h_neighbors[1x3,big]", env={"VERIF_BH": "1", "VERIF_BW": "3", "VERIF_CHOICE": "big",
+                                                                                      "VERIF_OPTLO": "0", "VERIF_OPTHI": "3"}, key="neighbors"),
+             runner.Cond(HF, "h_neighbors", 3 * Tm, name="h_neighbors[2x2,str,opt0-3]", env={"VERIF_CHOICE": "str", "VERIF_OPTLO": "0", "VERIF_OPTHI": "3"},
+                         key="neighbors"),
              runner.Cond(HF, "h_generate", 3 * Tm, env={"VERIF_STEPS": "1" if q else "2"}, key="generate_problem")]
     conds.append(runner.Cond(HF, "h_generate_reproducible", 2 * Tm, key="reproducible:generate_problem"))
     for kind in ("choice", "array", "array_move", "nested", "segmentation"):
@@ -263,7 +271,7 @@ def run(tier, only=None):
     rep.bounds = {"PRNG kernels": "all seeds with |seed| < 2^63 (only the low 32 bits are used), all states in [0,2^32)^4, all (a, b) in Z^2, all "
                   "32-bit draws; randint's rejection loop unrolled twice (the 'unwind' outcome is proven to require two rejected draws)",
                   "shuffle": "N = %s: injectivity of decision sequences -> permutations (bijection by counting)" % ("3" if q else "4"),
-                  "neighbours": "ArrayBuilder2D on 2x2, 1x3, 3x1, choice set {0,1,2}, symmetry / disallow_adjacent / use_move combinations, symbolic grid and draws; listed values must be the values found in the copy",
+                  "neighbours": "ArrayBuilder2D on 2x2, 1x3, 3x1, 1x2, 2x1, choice set {0,1,2} (also run-time ints 1000..1002 and built strings: equal but not identical to the default), symmetry / disallow_adjacent / use_move combinations, symbolic grid and draws; listed values must be the values found in the copy",
                   "generate_problem": "2 Choice variables, max_steps = %s, symbolic solver / uniqueness / score verdicts and acceptance draws" % ("1" if q else "2"),
                   "reproducibility": "5 patterns (Choice list, symmetric ArrayBuilder2D, use_move, nested tuple/list, SegmentationBuilder2D 1x3); "
                   "Python's global random replaced by two independent symbolic feeds"}
